@@ -1455,12 +1455,7 @@ func (f *formatter) writeBody(
 func (f *formatter) writeOpenBracePrefix(openBrace ast.Node) {
 	defer f.SetPreviousNode(openBrace)
 	info := f.nodeInfo(openBrace)
-	if info.LeadingComments().Len() > 0 {
-		f.writeInlineComments(info.LeadingComments())
-		if info.LeadingWhitespace() != "" {
-			f.Space()
-		}
-	}
+	f.writeLeadingInlineComments(info)
 	f.writeNode(openBrace)
 	if info.TrailingComments().Len() > 0 {
 		f.writeTrailingEndComments(info.TrailingComments())
@@ -1891,14 +1886,34 @@ func (f *formatter) writeInline(node ast.Node) {
 	}
 	defer f.SetPreviousNode(node)
 	info := f.nodeInfo(node)
-	if info.LeadingComments().Len() > 0 {
-		f.writeInlineComments(info.LeadingComments())
-		if info.LeadingWhitespace() != "" {
-			f.Space()
-		}
-	}
+	f.writeLeadingInlineComments(info)
 	f.writeNode(node)
 	f.writeInlineComments(info.TrailingComments())
+}
+
+// writeLeadingInlineComments writes the leading comments of a token in-line,
+// in front of the token.
+//
+// A comment that directly follows the previous token (no whitespace in between)
+// stays attached to that token, and the space that separates the two tokens, if
+// any, is written after the comments. This is what is written when such a comment
+// is a trailing comment of the previous token, which is how it is attributed when
+// the next token is on another line. Once the tokens are joined on one line, the
+// comment becomes a leading comment of the next token, so both cases must produce
+// the same text for the output to be stable.
+func (f *formatter) writeLeadingInlineComments(info nodeInfo) {
+	comments := info.LeadingComments()
+	if comments.Len() == 0 {
+		return
+	}
+	pendingSpace := f.pendingSpace
+	if comments.Index(0).LeadingWhitespace() == "" {
+		f.pendingSpace = false
+	}
+	f.writeInlineComments(comments)
+	if pendingSpace || info.LeadingWhitespace() != "" {
+		f.Space()
+	}
 }
 
 // writeBodyEnd writes the node as the end of a body.
@@ -1933,12 +1948,7 @@ func (f *formatter) writeBodyEnd(node ast.Node, leadingEndline bool) {
 	defer f.SetPreviousNode(node)
 	info := f.nodeInfo(node)
 	if leadingEndline {
-		if info.LeadingComments().Len() > 0 {
-			f.writeInlineComments(info.LeadingComments())
-			if info.LeadingWhitespace() != "" {
-				f.Space()
-			}
-		}
+		f.writeLeadingInlineComments(info)
 	} else {
 		f.writeMultilineComments(info.LeadingComments())
 		f.Indent(node)
@@ -1988,12 +1998,7 @@ func (f *formatter) writeBodyEndInline(node ast.Node, leadingInline bool) {
 	defer f.SetPreviousNode(node)
 	info := f.nodeInfo(node)
 	if leadingInline {
-		if info.LeadingComments().Len() > 0 {
-			f.writeInlineComments(info.LeadingComments())
-			if info.LeadingWhitespace() != "" {
-				f.Space()
-			}
-		}
+		f.writeLeadingInlineComments(info)
 	} else {
 		f.writeMultilineComments(info.LeadingComments())
 		f.Indent(node)
@@ -2028,12 +2033,7 @@ func (f *formatter) writeLineEnd(node ast.Node) {
 	}
 	defer f.SetPreviousNode(node)
 	info := f.nodeInfo(node)
-	if info.LeadingComments().Len() > 0 {
-		f.writeInlineComments(info.LeadingComments())
-		if info.LeadingWhitespace() != "" {
-			f.Space()
-		}
-	}
+	f.writeLeadingInlineComments(info)
 	f.writeNode(node)
 	f.Space()
 	f.writeTrailingEndComments(info.TrailingComments())
